@@ -77,6 +77,21 @@ def r_serde(F, R, only=None):
                     cond.append("serialize of %s is conditional on %s" % (show(val), show(f[1])))
                 if f[0] in ("Eq", "Ne", "Lt", "Le", "Gt", "Ge"):
                     cond.append("serialize of %s is conditional on a comparison" % show(val))
+        if is_enum:
+            tagged = 0
+            untagged = []
+            for (bi, t) in ser.calls():
+                tag = callee_tag(t.get("callee"))
+                if tag[0] == "Serializer":
+                    if tag[1].endswith("_variant"):
+                        tagged += 1
+                    elif tag[1].startswith("serialize_"):
+                        untagged.append(tag[1])
+            nvar = len(a["variants"])
+            R.check("R-SERDE", ser.label(), tagged == nvar and not untagged,
+                    construct="every enum variant is serialised with its variant identity",
+                    where=ser.where(),
+                    detail="%d variants, %d variant-tagged serializer calls, untagged calls %s" % (nvar, tagged, untagged))
         want = sorted(fields)
         got = sorted(set(sent))
         R.check("R-SERDE", ser.label(), want == got and not cond,
